@@ -198,6 +198,7 @@ func (t *c14Task) observe(p parsley.Parser) (obs string) {
 	f := text.NewFile("in", []byte(t.Input))
 	fs.AddFile(f)
 	ctx := parsley.NewContext(fs, text.NewReader(f))
+	ctx.SetUserContext(fmt.Sprintf("uc%x", fnv(0, t.Input)&0xffff)) // every caller has its own evaluation context
 	if t.StaticCheck {
 		ctx.EnableStaticCheck()
 	}
